@@ -802,6 +802,118 @@ class Prop(fw.PropBase):
                             cases.append({'s': d['name'], 'sid': sid, 'recs': recs, 'probe': None, 'why': 'lengths'})
         return cases
 
+    MAIN_STRATEGIES = ['CS2C8U6NH', 'MSPJIC8U3', 'CS2C8U6S', 'NLAIII384C8U3', 'scCHIC384C8U3', 'DamID2', 'SCARC8R2',
+                       'DamAndT', 'TCHIC', 'RBSN', 'CS2C8U8S']
+
+    def make_file_cases(self):
+        """file level stream: the same kind of read pairs written to fastq files (plain / gz, LF / CRLF, with and
+        without a trailing newline, several lanes) and run through DemultiplexingStrategyLoader.demultiplex + FastqHandle
+        or through the demux.py command line with the mate / lane files listed in sorted, R2-first and shuffled order"""
+        r = self.rng
+        quick = self.tier == 'quick'
+        out = []
+        names = {d['name']: i for i, d in reversed(list(enumerate(self.layouts)))}
+
+        def pairs_for(d, npairs, both_prefixed):
+            profs = self.gen_profile(d)
+            mates = 1 if (d['name'].endswith('SE') or d['name'].endswith('se')) else 2
+            ps = []
+            for j in range(npairs):
+                prof = profs[j % len(profs)]
+                for _ in range(30):
+                    recs = self.make_pair(prof, mates)
+                    last = j == npairs - 1
+                    if d['kind'] == 3:
+                        recs = self.enrich_composite(d, prof, recs) if mates == 2 else recs
+                    if both_prefixed and mates == 2:
+                        other = self.make_pair(prof, 2)
+                        if len(other[0][0]) >= 20:
+                            recs[1] = other[0]           # read 2 also starts like a read 1: a swapped run still accepts
+                    ok = all(len(x[0]) == len(x[1]) and len(x[0]) >= 1 for x in recs)
+                    if last:                              # the last read of the file must be an accepted, non-empty one
+                        ok = ok and self._placed is not None and all(len(x[0]) >= 40 for x in recs)
+                    if ok:
+                        break
+                ps.append(recs)
+            return ps, mates
+
+        variants = [(g, e, t) for g in (False, True) for e in ('\n', '\r\n') for t in (True, False)]
+        k = 0
+        for sid, d in enumerate(self.layouts):
+            if d['kind'] == 0:
+                continue
+            for rep in range(1 if quick else 4):
+                g, e, t = variants[(k + rep * 3) % len(variants)]
+                k += 1
+                ps, mates = pairs_for(d, r.randint(3, 6), False)
+                lanes = [len(ps)] if r.random() < 0.6 or len(ps) < 2 else [len(ps) // 2, len(ps) - len(ps) // 2]
+                out.append({'s': d['name'], 'sid': sid, 'mode': 'loader', 'pairs': ps, 'mates': mates, 'gz': g, 'eol': e,
+                            'trailing': t, 'lanes': lanes})
+        mains = [n for n in self.MAIN_STRATEGIES if n in names]
+        r.shuffle(mains)
+        for j, name in enumerate(mains[:(5 if quick else len(mains))] * (1 if quick else 3)):
+            d = self.layouts[names[name]]
+            ps, mates = pairs_for(d, r.randint(3, 5), True)
+            nl = 1 if j % 2 == 0 or len(ps) < 2 else 2
+            lanes = [len(ps)] if nl == 1 else [len(ps) // 2, len(ps) - len(ps) // 2]
+            nfiles = nl * mates
+            order = list(range(nfiles))
+            if j % 3 == 0:
+                order = list(reversed(order))             # R2 before R1 (and the later lane first)
+            elif j % 3 == 1:
+                r.shuffle(order)
+            g, e, t = variants[(j * 5 + 1) % len(variants)]
+            out.append({'s': name, 'sid': names[name], 'mode': 'main', 'pairs': ps, 'mates': mates, 'gz': g, 'eol': e,
+                        'trailing': t, 'lanes': lanes, 'order': order})
+        return out
+
+    def check_file_case(self, c, res):
+        """the statement on what the file level entry point WROTE; None = satisfied"""
+        d = self.layouts[c['sid']]
+        if res.get('crash'):
+            return 'the run crashed: %s' % res['crash']
+        if len(res.get('libs', [])) != 1:
+            return 'expected one output library directory, found %r' % (res.get('libs'),)
+        outs = res['out']
+        for o in outs:
+            if isinstance(o, str):
+                return o
+            if o is None:
+                return 'an output file of one mate is missing'
+        if len(set(len(o) for o in outs)) != 1:
+            return 'the mate files hold different numbers of records: %r' % [len(o) for o in outs]
+        expect_accept = []
+        for j, recs in enumerate(c['pairs']):
+            P = self.protocols.get(c['s'])
+            if P and P['kind'] in (1, 2, 4):
+                exp, _ = expected_py(P, P['kind'] == 2, recs, self.lk, d.get('alias'))
+                if exp is not None and P['min'] <= len(recs) <= P['max']:
+                    expect_accept.append(j)
+        seen = []
+        for pos in range(len(outs[0])):
+            tup = [o[pos] for o in outs]
+            idx = tup[0]['idx']
+            if idx is None or any(t['idx'] != idx for t in tup) or not (0 <= idx < len(c['pairs'])):
+                return 'record %d: the mates written side by side do not belong to the same input pair' % pos
+            seen.append(idx)
+            recs = c['pairs'][idx]
+            P = self.protocols.get(c['s'])
+            rr = []
+            for t in tup:
+                tags = dict(t['tags'])
+                if 'bi' in tags and tags['bi'].lstrip('-').isdigit() and not (P and P['kind'] == 4):
+                    tags['bi'] = int(tags['bi'])
+                rr.append({'seq': t['seq'], 'qual': t['qual'], 'tags': tags})
+            w = self.statement_on(c['sid'], recs, {'st': 'accept', 'recs': rr})
+            if w:
+                return 'input pair %d as written: %s' % (idx, w)
+        if seen != sorted(seen) or len(set(seen)) != len(seen):
+            return 'written records are not the accepted input pairs in input order: %r' % seen
+        missing = [j for j in expect_accept if j not in seen]
+        if missing:
+            return 'input pairs %r are acceptable by the protocol but were not written' % missing
+        return None
+
     def make_init_cases(self):
         r = self.rng
         out = []
@@ -877,8 +989,10 @@ class Prop(fw.PropBase):
         for i, c in enumerate(cases):
             if self.layouts[c['sid']]['kind'] in (1, 2) and c['why'] == 'random' and i % 5 == 0:
                 twins.append(i)
+        fcases = self.make_file_cases()
         lookups, lk_index = [], {}
-        for c in cases:
+        pseudo = [{'sid': fc['sid'], 'recs': recs} for fc in fcases for recs in fc['pairs']]
+        for c in cases + pseudo:
             d = self.layouts[c['sid']]
             if d['kind'] == 3:
                 keys = self.comp_candidates(d, c['recs'])
@@ -890,6 +1004,7 @@ class Prop(fw.PropBase):
                     lk_index[k] = len(lookups)
                     lookups.append(list(k))
         payload = {'op': 'run', 'lookups': lookups,
+                   'files': [{k: v for k, v in fc.items() if k != 'sid'} for fc in fcases],
                    'cases': [{'s': c['s'], 'recs': c['recs'], 'probe': None} for c in cases] +
                             [{'s': cases[i]['s'], 'recs': cases[i]['recs'], 'probe': True} for i in twins],
                    'init': inits}
@@ -899,6 +1014,7 @@ class Prop(fw.PropBase):
         impl = res['cases'][:len(cases)]
         impl_probe = res['cases'][len(cases):]
         self.cases, self.impl, self.inits, self.impl_init = cases, impl, inits, res['init']
+        self.fcases, self.fres = fcases, res.get('files', [])
         # ---- measured coverage of the input distribution
         by = {}
         for c, r in zip(cases, impl):
@@ -931,7 +1047,7 @@ class Prop(fw.PropBase):
                 L = len(c['recs'][0][0]) - pre
                 hist_len['shorter_than_prefix' if L < 0 else 'insert_0_10' if L <= 10 else 'insert_11_60' if L <= 60 else 'insert_61_150'] += 1
         self.cov.update({
-            'evaluations': len(cases) + len(twins) + sum(len(a['recs']) + 1 for a in inits),
+            'evaluations': len(cases) + len(twins) + sum(len(a['recs']) + 1 for a in inits) + sum(len(f['pairs']) for f in fcases),
             'distinct_nontrivial': len(nontrivial),
             'rule': 'every registered strategy x random read tuples (whitelisted / one-off / random barcode at the protocol\'s positions, '
                     'N bases, phred 0..51 and a few above, protocol motifs, 0-3 mates, reads shorter than the tag prefix, unequal '
@@ -963,6 +1079,20 @@ class Prop(fw.PropBase):
             if w:
                 dis.append({'strategy': c['s'], 'input': c['recs'], 'impl': r, 'statement': w})
         self.cov['statement_checked_on_impl_outputs'] = len(cases)
+        # ---- file level stream
+        nrec = 0
+        for fc, fr in zip(self.fcases, self.fres):
+            nrec += sum(len(o) for o in fr.get('out', []) if isinstance(o, list))
+            w = self.check_file_case(fc, fr)
+            if w:
+                dis.append({'strategy': fc['s'], 'input': {k: v for k, v in fc.items() if k != 'sid'}, 'impl': fr, 'statement': 'file level: ' + w})
+        self.cov['file_level'] = {
+            'runs': len(self.fcases), 'loader_runs': sum(1 for f in self.fcases if f['mode'] == 'loader'),
+            'demux_py_runs': sum(1 for f in self.fcases if f['mode'] == 'main'),
+            'unsorted_argument_orders': sum(1 for f in self.fcases if f['mode'] == 'main' and f['order'] != sorted(f['order'])),
+            'without_trailing_newline': sum(1 for f in self.fcases if not f['trailing']),
+            'crlf': sum(1 for f in self.fcases if f['eol'] != '\n'), 'gz': sum(1 for f in self.fcases if f['gz']),
+            'input_pairs': sum(len(f['pairs']) for f in self.fcases), 'written_records_checked': nrec}
         # ---- probe=True only filters
         for i, rp in zip(twins, impl_probe):
             if rp['st'] == 'accept' and rp != impl[i]:
@@ -975,6 +1105,10 @@ class Prop(fw.PropBase):
             raise fw.Broken('correspondence', '%d disagreements; first: %s' % (len(dis), json.dumps(dis[0], default=str)[:1500]))
 
     def statement(self, c, r):
+        return self.statement_on(c['sid'], c['recs'], r)
+
+    def statement_on(self, sid, recs, r):
+        c = {'sid': sid, 's': self.layouts[sid]['name'], 'recs': recs}
         d = self.layouts[c['sid']]
         name = c['s']
         P = self.protocols.get(name)
@@ -1110,8 +1244,9 @@ class Prop(fw.PropBase):
             return
         if not hasattr(self, 'impl'):
             cases = self.make_cases()
+            self.fcases = self.make_file_cases()
             lookups, lk_index = [], {}
-            for c in cases:
+            for c in cases + [{'sid': fc['sid'], 'recs': recs} for fc in self.fcases for recs in fc['pairs']]:
                 d = self.layouts[c['sid']]
                 keys = self.comp_candidates(d, c['recs']) if d['kind'] == 3 else \
                     [(d.get('alias'), raw) for raw in self.raw_candidates(d, c['recs'])]
@@ -1121,7 +1256,9 @@ class Prop(fw.PropBase):
                         lk_index[k] = len(lookups)
                         lookups.append(list(k))
             res = fw.run_impl('impl_c02.py', {'op': 'run', 'lookups': lookups,
+                                              'files': [{k: v for k, v in fc.items() if k != 'sid'} for fc in self.fcases],
                                               'cases': [{'s': c['s'], 'recs': c['recs'], 'probe': None} for c in cases]})
+            self.fres = res.get('files', [])
             lkres = res['lookups']
             self.lk = lambda alias, raw: (lkres[lk_index[(alias, raw)]] if (alias, raw) in lk_index else None)
             self.cases, self.impl = cases, res['cases']
@@ -1148,6 +1285,22 @@ class Prop(fw.PropBase):
         for key, (size, w) in sorted(best.items(), key=lambda kv: kv[1][0]):
             per.setdefault(w['input']['strategy'], w)
         self.witnesses += list(per.values())[:5]
+        # file level stream: smallest failing run per entry point
+        fbest = {}
+        for fc, fr in zip(getattr(self, 'fcases', []), getattr(self, 'fres', [])):
+            w = self.check_file_case(fc, fr)
+            if not w:
+                continue
+            cat_ = re.sub(r'[^A-Za-z ]', ' ', re.sub(r'input pair \d+ as written: ', '', re.sub(r'record \d+: ', '', w))).split()[:3]
+            key = 'C02:file-%s:%s' % (fc['mode'], '-'.join(cat_))
+            size = sum(len(x[0]) for recs in fc['pairs'] for x in recs)
+            if key not in fbest or size < fbest[key][0]:
+                how = ('DemultiplexingStrategyLoader.demultiplex on fastq files' if fc['mode'] == 'loader' else
+                       'demux.py ' + ' '.join(fr.get('argv_order', [])) + ' -use %s --y' % fc['s'])
+                fbest[key] = (size, {'key': key, 'what': '%s (%s, %s line ends, %s trailing newline): %s' % (
+                    how, 'gz' if fc['gz'] else 'plain', 'CRLF' if fc['eol'] != '\n' else 'LF', 'with' if fc['trailing'] else 'WITHOUT', w),
+                    'input': {k: v for k, v in fc.items() if k != 'sid'}, 'impl': fr})
+        self.witnesses += [w for _, w in sorted(fbest.values(), key=lambda x: x[0])][:3]
         # table level: positions observed by tracing differ from the pinned table
         for d in self.layouts:
             P = self.protocols.get(d['name'])
